@@ -143,6 +143,13 @@ def collect(t, rnd):
     rnd.shuffle(rz)
     rz = rz[: (480 if t == "quick" else len(rz))]
     pl += rz + [(b_, a_) for a_, b_ in rz[:120]]
+    # colours whose channels are all 0/1 or all 254/255 (integers that a "is this a 0..1 fraction?" heuristic could take for
+    # something else) against black, white, themselves' neighbours and a mid grey, in both roles
+    import itertools
+    ends = [c_ for lo_ in ((0, 1), (254, 255)) for c_ in itertools.product(lo_, repeat=3)]
+    partners = [(0, 0, 0), (255, 255, 255), (1, 1, 1), (2, 2, 2), (119, 119, 119), (0, 0, 1), (254, 254, 254)]
+    zo = [(c_, q_) for c_ in ends for q_ in partners] + [(q_, c_) for c_ in ends for q_ in partners]
+    pl += zo + zo          # twice: the size flag alternates with the index
     for idx, (a, b) in enumerate(pl):
         large = bool(idx & 1)
         lvl = str(f_wcag(a, b, large)) if f_wcag else ""
@@ -151,8 +158,17 @@ def collect(t, rnd):
         if not f_wcag:
             e["lvl"] = {"Very Readable": "AAA", "Readable": "AA", "Not Readable": "FAIL"}.get(e["readable"], "?")
         obs.append(e)
+        if idx % 3 == 0:
+            # the label of the SAME object after it has been used (a fix in some mode / setting): still the label of that pair
+            try:
+                p.make_readable(mode=(idx // 3) % 3, very_readable=bool((idx // 6) & 1))
+                p.make_readable(mode=(idx // 3 + 1) % 3, very_readable=not bool((idx // 6) & 1))
+            except Exception:
+                pass
+            obs.append(dict(e, readable=str(p.is_readable)))
     # ---- bulk status strings: label of the returned colour
     bl = [(a, b, bool(i & 1)) for i, (a, b) in enumerate(pl[: (300 if t == "quick" else 2500)])]
+    bl += [(a, b, bool(i & 1)) for i, (a, b) in enumerate(zo[::3])]
     # extreme text colours (cannot move further from the background) on mid-tone backgrounds: the returned colour often
     # equals the input and its label lies between the requirement levels
     for g in range(60, 200, 4 if t == "quick" else 1):
